@@ -2,7 +2,7 @@
    Property theorems only: each is closed by [exact <lemma>] and followed by Print Assumptions.
    [sdn A i j] is the dense matrix with the same entries as the sparse matrix A;
    [swf_sp] is the representation invariant every public mutation preserves (sp_upd_wf). *)
-From OM Require Import Base.Lists Maths.Dense Maths.SparseModel Maths.SparseProofs Maths.Ranges Maths.RangesProofs.
+From OM Require Import Base.Lists Maths.Dense Maths.SparseModel Maths.SparseProofs Maths.Ranges Maths.RangesProofs Maths.FastSparseProofs.
 Local Open Scope Z_scope.
 
 Theorem c14_invariant_preserved : forall A i j f A', swf_sp A -> sp_upd A i j f = Some A' -> swf_sp A'.
@@ -164,6 +164,23 @@ Theorem c14_symblock_add_keeps_invariant : forall rs ir jr rs' bi bj nr nc, Inv 
   fst (nth bi rs' (0,0)) <= fst (nth bj rs' (0,0)) /\ nr = rlen (nth bi rs' (0,0)) /\ nc = rlen (nth bj rs' (0,0)))%nat.
 Proof. exact sblk_add_block_inv. Qed.
 Print Assumptions c14_symblock_add_keeps_invariant.
+
+(* the compressed-row "fast" variant built by FastSparseMatrix(const SparseMatrix&): row pointers, element
+   access and product agree with the map-based matrix (hence with the dense one), for every well-formed
+   matrix incl. empty rows, trailing empty rows and the empty matrix *)
+Theorem c14_fast_row_pointers : forall A k, swf_sp A -> (k <= snl A)%nat ->
+  nth k (crow (to_csr A)) O = cnt_lt k (stank A) /\ length (crow (to_csr A)) = S (snl A).
+Proof. exact crow_spec. Qed.
+Print Assumptions c14_fast_row_pointers.
+
+Theorem c14_fast_element_read : forall A i j, swf_sp A -> (i < snl A)%nat -> csr_get (to_csr A) i j = sdn A i j.
+Proof. exact csr_get_eq. Qed.
+Print Assumptions c14_fast_element_read.
+
+Theorem c14_fast_mul_vector : forall A x r, swf_sp A -> csr_mulv (to_csr A) x = Some r ->
+  length r = snl A /\ forall i, (i < snl A)%nat -> nth i r 0 = sumn (snc A) (fun j => sdn A i j * nth j x 0).
+Proof. exact csr_mulv_eq. Qed.
+Print Assumptions c14_fast_mul_vector.
 
 (* non-vacuity: a concrete well-formed matrix and a concrete reachable Ranges state *)
 Example c14_nonvacuous :
